@@ -269,46 +269,63 @@ impl GlobalCollector {
         let submit_spans = &mut self.submit_spans;
         let stale_spans = &mut self.stale_spans;
 
-        {
-            #[cfg(fastrace_verif)]
-            let mut verif_index = 0usize;
-            #[cfg(fastrace_verif)]
-            let _verif_drain = VerifDrainScope::begin();
-            SPSC_RXS.lock().retain_mut(|rx| {
+        // Receivers are drained one after another while producers keep sending, so a single pass can
+        // pick up a command without the one that caused it on another thread (a commit without the
+        // span submitted before it, a span without its trace's start, ...). Repeat until a pass finds
+        // nothing new: what has been drained is then closed under happens-before.
+        loop {
+            let drained = start_collects.len()
+                + drop_collects.len()
+                + commit_collects.len()
+                + submit_spans.len();
+
+            {
                 #[cfg(fastrace_verif)]
-                {
-                    crate::verif::point(crate::verif::Point::DrainReceiver { index: verif_index });
-                    verif_index += 1;
-                }
-                loop {
-                    match rx.try_recv() {
-                        #[cfg(fastrace_verif)]
-                        Ok(Some(ref cmd)) if verif_log_drained(cmd) => unreachable!(),
-                        #[cfg(fastrace_verif)]
-                        Err(_) if {
-                            crate::verif::point(crate::verif::Point::ReceiverClosed {
-                                index: verif_index - 1,
-                            });
-                            false
-                        } =>
-                        {
-                            unreachable!()
-                        }
-                        Ok(Some(CollectCommand::StartCollect(cmd))) => start_collects.push(cmd),
-                        Ok(Some(CollectCommand::DropCollect(cmd))) => drop_collects.push(cmd),
-                        Ok(Some(CollectCommand::CommitCollect(cmd))) => commit_collects.push(cmd),
-                        Ok(Some(CollectCommand::SubmitSpans(cmd))) => submit_spans.push(cmd),
-                        Ok(None) => {
-                            // Channel is empty.
-                            return true;
-                        }
-                        Err(_) => {
-                            // Channel closed. Remove it from the channel list.
-                            return false;
+                let mut verif_index = 0usize;
+                #[cfg(fastrace_verif)]
+                let _verif_drain = VerifDrainScope::begin();
+                SPSC_RXS.lock().retain_mut(|rx| {
+                    #[cfg(fastrace_verif)]
+                    {
+                        crate::verif::point(crate::verif::Point::DrainReceiver { index: verif_index });
+                        verif_index += 1;
+                    }
+                    loop {
+                        match rx.try_recv() {
+                            #[cfg(fastrace_verif)]
+                            Ok(Some(ref cmd)) if verif_log_drained(cmd) => unreachable!(),
+                            #[cfg(fastrace_verif)]
+                            Err(_) if {
+                                crate::verif::point(crate::verif::Point::ReceiverClosed {
+                                    index: verif_index - 1,
+                                });
+                                false
+                            } =>
+                            {
+                                unreachable!()
+                            }
+                            Ok(Some(CollectCommand::StartCollect(cmd))) => start_collects.push(cmd),
+                            Ok(Some(CollectCommand::DropCollect(cmd))) => drop_collects.push(cmd),
+                            Ok(Some(CollectCommand::CommitCollect(cmd))) => commit_collects.push(cmd),
+                            Ok(Some(CollectCommand::SubmitSpans(cmd))) => submit_spans.push(cmd),
+                            Ok(None) => {
+                                // Channel is empty.
+                                return true;
+                            }
+                            Err(_) => {
+                                // Channel closed. Remove it from the channel list.
+                                return false;
+                            }
                         }
                     }
-                }
-            });
+                });
+            }
+
+            if start_collects.len() + drop_collects.len() + commit_collects.len() + submit_spans.len()
+                == drained
+            {
+                break;
+            }
         }
 
         // If the reporter is not set, global collectior only clears the channel and then dismiss
